@@ -9,12 +9,13 @@ COMMON_TRUSTED = [
 ]
 
 ITEMS_CONTRACTS = "{repo}/internal/lexer/items/zz_contracts_verif.go"
+AST_CONTRACTS = "{repo}/internal/ast/zz_contracts_verif.go"
 
 PROPS = {}
 
 PROPS["C18"] = {
     "level": "proof",
-    "govc": [{"dir": "{repo}", "pkgs": ["./internal/lexer/items"], "contracts": [ITEMS_CONTRACTS], "prop": "C18"}],
+    "govc": [{"dir": "{repo}", "pkgs": ["./internal/lexer/items"], "contracts": [ITEMS_CONTRACTS, AST_CONTRACTS], "prop": "C18"}],
     "bounded": [{
         "name": "IVL", "stands_in_for": ["items.(*DisjunctRangeSet).AddRange", "items.(*DisjunctRangeSet).insertRange"],
         "overlay": {"{repo}/internal/lexer/items/verif_c18_test.go": "harness/c18/verif_c18_test.go"},
@@ -389,11 +390,13 @@ PROPS["C11"] = {
 PROPS["C01"] = {
     "level": "other",
     "prepare": prepare_expand,
-    "govc": [{"dir": "{gen}/" + c, "pkgs": ["./lexer"], "contracts": [STDLIB, LEXGEN_CONTRACTS], "prop": "C01"} for c in ("lexonly", "recover")],
+    "govc": [{"dir": "{gen}/" + c, "pkgs": ["./lexer"], "contracts": [STDLIB, LEXGEN_CONTRACTS], "prop": "C01"} for c in ("lexonly", "recover")]
+            + [{"dir": "{repo}", "pkgs": ["./internal/lexer/items", "./internal/ast"], "contracts": [ITEMS_CONTRACTS, AST_CONTRACTS], "prop": "C01"}],
     "bounded": scan_bounded("C01"),
     "extra": [extra_parametric_lexer],
     "trusted_base": COMMON_TRUSTED + ["text/template expansion (the expanded lexer package is what is verified)"],
-    "assumptions": SCAN_ASSUME + ["Live and IgnChain are inductive predicates given by introduction rules only (sound for the least fixed point)"],
+    "assumptions": SCAN_ASSUME + ["Live and IgnChain are inductive predicates given by introduction rules only (sound for the least fixed point)",
+                                  "generator side: ItemSet.Action (which pattern a lexer state accepts: a string literal of the syntax part wins over every named pattern, otherwise the earliest declared pattern; nil when no token or ignored-token pattern is completely matched) is proved for all item lists, with Item.Reduce trusted to be a pure function of the item; the subset construction itself (Emoves, Move, Next, ItemSets.Closure) and the table rendering are decided by the bounded LEX sweep only"],
     "explanation": "Run-time half, proved for arbitrary WF_lex tables and arbitrary byte strings (ill-formed UTF-8 included): one Scan call skips a chain of ignored lexemes each taken as soon as it is complete, then follows the DFA run from state 0 for as long as a transition exists and returns the verdict of the last state (token with exactly that text; INVALID, consuming the rune that killed the run, when the last state has no verdict or no rune could be read), and EOF for ever once the input is exhausted. Generator half (the emitted DFA is the automaton of the lexical rules: subset construction, priorities, '.' semantics, regular definitions): bounded sweep against an independent reference automaton, labelled bounded.",
 }
 
@@ -879,7 +882,7 @@ def c09_termination(run):
 
 PROPS["C09"] = {
     "level": "other",
-    "govc": [{"dir": "{repo}", "pkgs": ["./internal/lexer/items"], "contracts": [ITEMS_CONTRACTS], "prop": "C18"},
+    "govc": [{"dir": "{repo}", "pkgs": ["./internal/lexer/items"], "contracts": [ITEMS_CONTRACTS, AST_CONTRACTS], "prop": "C18"},
              {"dir": "{repo}", "pkgs": ["./internal/util/md"], "contracts": [STDLIB, MD_CONTRACTS], "prop": "C19"},
              {"dir": "{repo}", "pkgs": ["./internal/util"], "contracts": [STDLIB, UTIL_CONTRACTS], "prop": "C20"},
              {"dir": "{repo}", "pkgs": ["./internal/frontend/scanner"], "contracts": [STDLIB, "{repo}/internal/frontend/scanner/zz_contracts_verif.go"], "prop": "C09"}],
